@@ -15,8 +15,9 @@ from . import datasets_c08 as D8
 
 
 def merged_like_probes(rng, nc, n_probes):
-    """A probe table and a channel map as the Merger writes them: probe p's raw indices shifted by the running
-    maximum, so that make_channel_objects' re-basing gives non-negative raw indices (no wrap-around)."""
+    """A probe table and a channel map as Merger.write_channel_data writes them: each probe's raw indices shifted by
+    the maximum of the previous probe's (already shifted) channel map, so that make_channel_objects' re-basing gives
+    back the per-probe raw indices (non-negative, no wrap-around)."""
     sizes = [1] * n_probes
     for _ in range(nc - n_probes):
         sizes[rng.randrange(n_probes)] += 1
@@ -27,7 +28,7 @@ def merged_like_probes(rng, nc, n_probes):
         cm = [v + off for v in local]
         probes += [p] * k
         cmap += cm
-        off += max(cm)
+        off = max(cm)
     order = list(range(nc))
     rng.shuffle(order)                                          # channels of one probe need not be contiguous
     return [probes[i] for i in order], [cmap[i] for i in order]
@@ -52,7 +53,7 @@ def gen(rng, **force):
         'group_tsv': rng.random() < 0.3, 'labels': rng.random() < 0.3, 'cluster_probes': rng.random() < 0.3,
         'cluster_shanks': rng.random() < 0.2, 'drift': rng.random() < 0.25, 'temp_wh': rng.random() < 0.35,
         'old_subset': rng.random() < 0.15, 'last_template_empty': rng.random() < 0.25, 'big_ids': rng.random() < 0.12,
-        'other_template_empty': rng.choice(['no', 'no', 'no', 'no', 'first', 'middle']),
+        'other_template_empty': rng.choice(['no', 'no', 'no', 'no', 'first', 'middle']), 'spike_attr': rng.random() < 0.1,
         'label': rng.choice(['', 'probe00', 'probe00', 'imec1']), 'factor': rng.choice([1, 2.5]),
         'target': 'fresh', 'params_py': rng.random() < 0.85, 'rate': rng.choice([128.0, 1024.0, 100.0, 30000.0, 25000.0]),
         'similar': rng.random() < 0.2, 'extra_dat_channels': rng.choice([0, 0, 1, 3]),
@@ -128,6 +129,9 @@ def gen(rng, **force):
 
     def vec(dtype, data):
         return {'dtype': dtype, 'shape': [len(data), 1] if o['vec2d'] else [len(data)], 'data': list(data)}
+    if o['spike_attr']:
+        # an extra per-spike attribute file (spike_<name>.npy, model.py:519-534): loaded, never exported, left alone
+        files['spike_quality.npy'] = vec('float32', [float(rng.randrange(4)) for _ in range(ns)])
     if o['labels']:
         files['channel_labels.npy'] = vec('int32', [rng.randrange(3) for _ in range(nc)])
     def cvec(data):
